@@ -22,7 +22,7 @@ Definition backend_slot (i : Z) : Z := i * 8.
 Definition backend_deref (t : xtype) : bool :=
   match t with
   | XPrim n _ => name_eqb n LONG_DOUBLE          (* CT_IS_LONGDOUBLE is set for the primitive named "long double" *)
-  | XStructOrUnion _ => true
+  | XStruct _ | XUnion _ => true         (* CT_STRUCT | CT_UNION *)
   | _ => false
   end.
 (* bytes the backend reads at the slot: a pointer, or the value itself (convert_to_object reads ct_size bytes) *)
@@ -46,7 +46,7 @@ Definition wf_xtype (t : xtype) : Prop :=
   | XVoid => True
   | XPrim n s => 1 <= s /\ (n = LONG_DOUBLE \/ n = DOUBLE_COMPLEX -> s <= 16) /\
                  (n <> LONG_DOUBLE -> n <> DOUBLE_COMPLEX -> s <= 8)
-  | XStructOrUnion s => 1 <= s
+  | XStruct s | XUnion s => 1 <= s
   | XPointer => True
   | XEnum s => 1 <= s <= 8
   end.
